@@ -15,6 +15,7 @@ class C35(Prop):
                dict(pkg="internal/servers/moq", test="TestVerifC35Moq"),
                dict(pkg="internal/protocols/httpp", test="TestVerifC35Filter"),
                dict(pkg="internal/servers/srt", test="TestVerifC35Srt"),
+               dict(pkg="internal/protocols/mpegts", test="TestVerifC35Ts"),
                dict(pkg="internal/api", test="TestVerifC35Param", thorough_only=True),
                dict(pkg="internal/core", test="TestVerifC35Core", timeout=1500)]
     n_quick = 240          # per driver (filter/param use half; the core driver scales its own rounds from it)
@@ -42,6 +43,17 @@ class C35(Prop):
             "against requests / Close(), requests into the held mutex after SETUP, catalogs) and at random; Coq accepts the "
             "observation (per handler: returned error class, messages written, path-manager request, apiItem snapshot; "
             "final state, name, query, channels) only if some interleaving of the model reaches it under the same script. "
+            "MPEG-TS INGESTION (publisher DATA; VERIF_N/2 streams, every family three times first): generated MPEG-TS "
+            "streams with 0-4 MPEG-4 Audio LATM tracks (the codec with an in-tree pre-scan) among H264 / H265 / AAC-ADTS / "
+            "MPEG-4 / MPEG-2 video / unsupported tracks in random PMT order; PES orderings burst-first (one track 2-5 "
+            "packets ahead: a probed track delivers again before every track is probed), late-config (elements that refer "
+            "to an earlier configuration, truncated / bit-flipped / random elements before the first configuration), "
+            "never-config, sequential, interleaved, single, no-latm, random (+ truncated or corrupted TS bytes); elements "
+            "with own / same / other configuration (5 configurations: rates, subframes, two programs), several per PES, "
+            "non-LATM payloads, PTS != DTS; the real EnhancedReader.Initialize + ToStream + a real stream.Stream + the read "
+            "loop under recover(); tracks and per-Read() events from a plain mediacommon Reader over the same bytes, "
+            "elements classified by mpeg4audio (oracles); compared: init error / no codecs / medias with their "
+            "configuration / reads before the loop ends / how it ends. "
             "Non-trivial = a name reached the path manager / the oracle saw the process / at least two handlers raced; "
             "distinct = distinct descriptions")
     trusted_base = ["Coq 8.16.1 kernel + VM (vm_compute for cases)",
@@ -63,6 +75,11 @@ class C35(Prop):
                     "gortsplib base.ParseURL (RTSP URL -> path)",
                     "SRT stream ids: the Panic-explicit srt_unmarshal is proved equal to C34's stream_id_unmarshal, which C34's "
                     "driver compares with the real streamID.unmarshal under recover()",
+                    "model Model/C35_TsIngest.v hand-written (EnhancedReader.Initialize pre-scan bookkeeping, ToStream's LATM "
+                    "branch, the LATM data callback, the read loop), tied by the MPEG-TS cases; oracles: mediacommon "
+                    "mpegts.Reader (tracks, which callback fires per Read()), mpeg4audio AudioSyncStream / AudioMuxElement "
+                    "decoders and reflect.DeepEqual on configurations; astits muxer builds the streams; driver "
+                    "zz_verif_c35ts_test.go (internal/protocols/mpegts)",
                     "NOT modelled, exercised by the crash-oracle runs only (testing): net/http, quic-go/webtransport-go, gin, "
                     "gortsplib, gortmplib, gosrt, pion, gohlslib, the Go runtime"]
     assumptions = ["Go panics on s[a:b] iff not 0<=a<=b<=len(s) and on s[i] iff not 0<=i<len(s)",
@@ -72,6 +89,9 @@ class C35(Prop):
                    "gortsplib hands onRecord the path of the ANNOUNCE that onAnnounce accepted",
                    "Go: close of a closed channel panics, Unlock of an unlocked sync.Mutex is fatal, a select with several ready "
                    "cases takes any of them, sync.Mutex gives mutual exclusion; a panic in an errgroup goroutine ends the process",
+                   "mpeg4audio.AudioSyncStream.Unmarshal never succeeds with zero elements (the pre-scan reads els[0]); a nil "
+                   "*StreamMuxConfig in format.MPEG4AudioLATM makes ClockRate() panic; the SRT / RTSP MPEG-TS / static source "
+                   "goroutines that run Initialize + ToStream + Read do not recover",
                    "a critical section of s.mutex is observed by other goroutines as one step (they touch the guarded fields "
                    "only under the mutex: part of what is proved)"]
     manifest = dict(
@@ -89,7 +109,13 @@ class C35(Prop):
              "lock, state test and write in two sections, off-by-one index guard) panic under a concrete schedule. Real "
              "sessions are driven through such schedules on every run, and every syntactic path through the per-stream "
              "methods of session.go (regenerated on every run) is type-checked against the discipline. One data race "
-             "was found this way and repaired (onPublishTrack read s.state after Unlock, fix c873608).",
+             "was found this way and repaired (onPublishTrack read s.state after Unlock, fix c873608). Publisher DATA, "
+             "MPEG-TS ingestion (SRT, RTSP MPEG-TS, MPEG-TS / SRT sources): for every track list and every order of PES "
+             "packets of any tracks (decodable or not), when the LATM pre-scan of EnhancedReader.Initialize ends without "
+             "error every LATM track has its StreamMuxConfig, so ToStream never dereferences a nil configuration and the "
+             "whole Initialize / ToStream / Read loop does not panic; without the per-track done flag, with the decrement "
+             "not tied to a successful decode, or with the loop bound off by one it does (witnesses). Real streams are "
+             "driven through the real code on every run.",
         note="Everything behind third-party decoders (gortsplib, gortmplib, gosrt, pion, quic-go, gohlslib, net/http, gin) and "
              "the Go runtime is TESTED, not proved: a real Core in a child process receives hostile TCP/UDP traffic on every "
              "listener and must stay alive and keep answering. The property's literal claim (process never terminates) is "
